@@ -32,6 +32,7 @@ func c07Cases(seed int64, thorough bool) []*synth.Case {
 	o.SQL = true
 	cases = append(cases, genCases(rng, n/2, "q", o)...)
 	cases = append(cases, synth.ManyImports()...)
+	cases = append(cases, synth.HandWritten()...)
 	return cases
 }
 
